@@ -71,6 +71,11 @@ def check_hist(case, iout, ires, spec_text, want=("answers", "output", "exhauste
         seg_out = outs[k] if k < len(outs) else ""
         name = op[0]
         if o == "panic":
+            # Under a raised stop flag every call finds no clause, so the search goes on into alternatives that
+            # the untimed search never reaches (a later clause after a body whose cut was not reached ...) and
+            # may meet a built-in that panics there (arithmetic on a list): that is the documented behaviour of a
+            # stopped search, not a wrong answer.  Only a panic in a history without any stop is judged.
+            if any(p[0] in ("stop-after", "stop-now") for p in ops[:k]): return
             # a panic is a violation only where the reference search of that query is defined and finishes
             try:
                 q = int(op[1]); cur = sp.get(q, [])
